@@ -640,6 +640,7 @@ int32 matrixSslNewSession(ssl_t **ssl, const sslKeys_t *keys,
         lssl->flightDone = 0;
         lssl->appDataExch = 0;
         lssl->lastMsn = -1;
+        lssl->flightLastMsn = -1;
         dtlsInitFrag(lssl);
     }
 #endif /* USE_DTLS */
